@@ -20,7 +20,24 @@ import (
 	"verif/internal/ref"
 )
 
-func init() { subcommands["hist"] = histMain }
+func init() {
+	subcommands["hist"] = histMain
+	subcommands["lists"] = listsMain
+}
+
+// listsMain prints every package-level []string variable of internal/wordlist as the linked
+// package holds it (used by C17 when the committed lists are not written as string-literal slices).
+func listsMain(args []string) int {
+	out := map[string][]string{}
+	for n, p := range bip39.VerifStateVars() {
+		if l, ok := p.(*[]string); ok && strings.HasPrefix(n, "wordlist.") {
+			out[strings.TrimPrefix(n, "wordlist.")] = append([]string{}, (*l)...)
+		}
+	}
+	data, _ := json.Marshal(out)
+	emitResult(data)
+	return 0
+}
 
 // ---- canonical fingerprint of all package-level state -----------------------
 
@@ -566,7 +583,7 @@ func histMain(args []string) int {
 	out.Lazy = lazyBits()
 	out.SourceDefault, out.SourceType = sourceIsDefault()
 	data, _ := json.Marshal(&out)
-	os.Stdout.Write(data)
+	emitResult(data)
 	return 0
 }
 
